@@ -275,6 +275,13 @@ for _un, (_rq, _rs) in sorted(EXCH_UNITS.items()):
         _name = 'exch_%s_%s' % (_un, _dn)
         FAMILIES[_name] = ('exch', dict(_dc, LOG_LEVEL=-1, URLENC_PARSER=1, MAX_TX=10000000), (_rq, _rs))
         EXCH_FAMILIES.append(_name)
+    # ... and with a small transaction limit (htp_config_set_max_tx) on a connection whose finished transactions are disposed of by the
+    # parser but whose list slots the application never recycles (no htp_connp_tx_freed): the unchanged parser refuses transaction
+    # max_tx + 2 and ends the stream; whatever it does instead must not cost more per exchange the longer the connection lives
+    for _mx in (2, 16):
+        _name = 'exch_%s_auto_maxtx%d' % (_un, _mx)
+        FAMILIES[_name] = ('exch', dict(AUTO_DESTROY=1, LOG_LEVEL=-1, URLENC_PARSER=1, MAX_TX=_mx), (_rq, _rs))
+        EXCH_FAMILIES.append(_name)
 
 
 def make_stream(fam, k):
